@@ -83,6 +83,24 @@ partial def loop (h : IO.FS.Stream) (d : Drv) (pendingOp : Option (List String))
          | some u => loop h { d with disk := { umask := u } } none
          | none => loop h d none)
       | "fsmut" :: _, _ => loop h d none
+      | ["kcv", _, _], [rv, _, _, kt, val, cv] =>
+        -- C13: a non-empty CKA_CHECK_VALUE of a secret key whose value is readable must be the standard check value for its type
+        (match parseNat? rv, parseHexNat? kt, (if val == "-" then none else parseHex val), (if cv == "-" || cv == "." then none else parseHex cv) with
+         | some 0, some ktv, some v, some c =>
+           (match keyCheckValue ktv v with
+            | some want =>
+              if want == c then do
+                IO.println s!"ok kcv:0"
+                loop h { d with pairs := d.pairs + 1 } none
+              else do
+                IO.println s!"MISMATCH line {d.lineNo} cat=kcv op=kcv :: {" ".intercalate op} => {" ".intercalate res} :: check value: standard {toHex want} stored {toHex c} :: ctx  modelrv=0"
+                loop h { d with mism := d.mism + 1, pairs := d.pairs + 1 } none
+            | none => do
+              IO.println s!"ok kcv:notcomputed"
+              loop h { d with pairs := d.pairs + 1 } none)
+         | _, _, _, _ => do
+           IO.println s!"ok kcv:unreadable"
+           loop h { d with pairs := d.pairs + 1 } none)
       | _, _ =>
       match parsePair op res with
       | none =>
